@@ -13,7 +13,7 @@ THEOREMS = ["C13_model_smoke", "C13_no_wedge_all_schedules", "C13_current_handle
             "C13_parked_task_holds_no_map_lock", "C13_timeout_releases_locks", "C13_guard_across_await_deadlock_refuted", "C13_old_handler_undisciplined", "C13_source_no_map_guard_across_await",
             "C13_deadlock_free_from_every_reachable_state", "C13_current_handlers_deadlock_free", "C13_progress_or_done", "C13_extended_invariant_preserved",
             "C13_deadlock_free_smoke", "C13_source_one_channel_lock_at_a_time", "C13_message_pool_never_exhausted", "C13_source_write_budget",
-            "C13_source_lock_programs_disciplined", "C13_source_handlers_never_wedge", "C13_source_handlers_deadlock_free", "C13_source_lock_programs_cover", "C13_idle_connection_has_its_whole_window", "C13_source_inflight_decrements_live_counter"]
+            "C13_source_lock_programs_disciplined", "C13_source_handlers_never_wedge", "C13_source_handlers_deadlock_free", "C13_source_lock_programs_cover", "C13_idle_connection_has_its_whole_window", "C13_source_inflight_decrements_live_counter", "C13_conc_always_drains", "C13_source_segment_layout"]
 
 REQS = {
     "JOIN_new": lambda i: sl.frame("JOIN", [("id", i), ("channel", "!c3@localhost")]),
